@@ -13,6 +13,7 @@ import PromVerif.Drv.C18
 import PromVerif.Drv.C08
 import PromVerif.Drv.C02
 import PromVerif.Drv.C16
+import PromVerif.Drv.C12
 namespace PromVerif.Drv
 
 def dispatch (m : String) (args : List String) : String :=
@@ -32,6 +33,7 @@ def dispatch (m : String) (args : List String) : String :=
   | "c08" => C08.handle args
   | "c02" => C02.handle args
   | "c16" => C16.handle args
+  | "c12" => C12.handle args
   | _ => "err unknown-module"
 
 end PromVerif.Drv
